@@ -148,6 +148,11 @@ class Scenario:
                 for t in self.col:
                     ys = [np.asarray(a, dtype=np.float64) for a in t.toolpath()]
                     out.append(h60(*ys, round(t.floor_length, 12), round(t.wall_length, 12)))
+                # a floor length is by design 0 until its tool-path has been generated once (tests/trench_test.py asserts
+                # that), so the column estimate is read only after every part it sums, the beds included, was generated
+                for b in getattr(self.col, 'trenchbed', []):
+                    ys = [np.asarray(a, dtype=np.float64) for a in b.toolpath()]
+                    out.append(h60(*ys, round(b.floor_length, 12)))
                 return 7, h60(out, round(float(self.col.fabrication_time), 9))
             if op == 'fab_time':
                 return 8, h60([round(float(w.fabrication_time), 12) for w in self.wgs + self.mks])
